@@ -151,10 +151,52 @@ def runOp (c : Ctx) : Rd String := do
     o.rets.map fun r => s.get r.id
   pure (" ".intercalate (head ++ cells.map outList))
 
+/-- `rows[perm]` of an `(N,3)` array (`self._vertices[vert_order, :]`) -/
+def permRows (perm : List Nat) (l : List α) : List α :=
+  perm.foldr (fun i acc => (l.drop (3 * i)).take 3 ++ acc) []
+
+/-! `heap.ctor`  request
+      cls, twoCols (i0|i1), verts (the caller's array, id 0), hasNormal (i0|i1), normal (id 1), center (id 2),
+      computedNormal, perm (row order after `_reorder_verts`; ignored for other classes),
+      eqs seqs cen (what the external routines produced at construction), volume,
+      n, then n queries (as in `heap.run`; the argument array is id 0 — never used by the harness)
+    reply
+      3 ints     caller array 0 / 1 / 2 is bound to NO attribute after the constructor (1 = detached)
+      3 ints     the same after the queries
+      3 lists    contents of the caller's arrays 0, 1, 2 after constructor + queries
+      3 lists    contents of `_vertices`, `_normal`, `_centroid` right after the constructor -/
+def ctorOp (c : Ctx) : Rd String := do
+  let cls ← Rd.nat c
+  let two ← Rd.nat c
+  let verts : List α ← rdScs c
+  let hasN ← Rd.nat c
+  let normal : List α ← rdScs c
+  let center : List α ← rdScs c
+  let cn : List α ← rdScs c
+  let perm ← Rd.list c (Rd.nat c)
+  let eqs : List α ← rdScs c
+  let seqs : List α ← rdScs c
+  let cen : List α ← rdScs c
+  let vol : α ← Rd.sc c
+  let qs ← Rd.list c (rdQuery c)
+  let M : Meas α := mkMeas 0 [] [] eqs seqs vol
+  let ci : CtorIn α :=
+    { verts := 0, twoCols := two == 1, normal := if hasN = 1 then some 1 else none, center := 2, consts := [],
+      computedNormal := cn, order := permRows perm, eqs := eqs, seqs := seqs, cen := cen, volume := vol }
+  let s0 := construct (clsOf cls) ci [(0, verts), (1, normal), (2, center)] 3
+  let s1 := runAll M qs s0
+  let det (s : St α) (i : Nat) : Int :=
+    b2i (i != s.fVerts && i != s.fNormal && i != s.fCen && i != s.fEqs && i != s.fSeqs)
+  let head := [Out.int (det s0 0), Out.int (det s0 1), Out.int (det s0 2),
+               Out.int (det s1 0), Out.int (det s1 1), Out.int (det s1 2)]
+  let cells := [s1.get 0, s1.get 1, s1.get 2, s0.get s0.fVerts, s0.get s0.fNormal, s0.get s0.fCen]
+  pure (" ".intercalate (head ++ cells.map outList))
+
 /-- driver ops of C16. `none` = unknown op. -/
 def run (α : Type) [Scalar α] [Codec α] (op : String) (c : Ctx) : Option (Rd String) :=
   match op with
   | "heap.run" => some (runOp (α := α) c)
+  | "heap.ctor" => some (ctorOp (α := α) c)
   | _ => none
 
 end OpsC16
